@@ -230,7 +230,7 @@ def values(t, rnd):
     if t == "nat":
         return [0, 1, 2, 3]
     if t == "real":
-        return [-0.5, 0.0, 0.25, 0.5, 1.0, 1.5]
+        return [-0.5, -5e-13, 0.0, 0.25, 0.5, 1.0, 1.0 + 4e-10, 1.5]      # incl. values a hair outside 0 and 1 (tolerance bugs at bounds)
     if t == "bool":
         return [False, True]
     if t == "none":
